@@ -64,6 +64,15 @@ Theorem import_keeps_exporter_alive : forall (ops : list op) (id : nat) (n : nod
 Proof. exact keeps_alive_l. Qed.
 Print Assumptions import_keeps_exporter_alive.
 
+(* Export then import of an Int32 array without validity (any slice of any region) yields an array that
+   shows the same values; arrays with validity and Boolean arrays are covered by the correspondence run only. *)
+Theorem export_import_roundtrip_partial : forall (s : state) (c : bool) (v : handle),
+  hreg v < length (nodes s) -> hlen v mod 4 = 0 ->
+  exists o, snd (import_arr (fst (export_arr s 4 c (v :: nil))) (snd (export_arr s 4 c (v :: nil)))) = Some o /\ okind o = 4 /\
+            view (fst (import_arr (fst (export_arr s 4 c (v :: nil))) (snd (export_arr s 4 c (v :: nil))))) o = view s (mkO 4 (v :: nil) nil).
+Proof. exact roundtrip_no_nulls. Qed.
+Print Assumptions export_import_roundtrip_partial.
+
 (* POOL ACCOUNTING: the pool counter (moved by reserve / resize / drop of reservations) equals the total
    size of the reservations of the regions that are alive, after every operation. *)
 Theorem pool_accounting : forall (ops : list op), pool (run ops init) = live_resv (run ops init).
